@@ -247,18 +247,28 @@ type perturbation struct {
 	apply   func(c *agglayertypes.Certificate) bool
 }
 
-func c10Perturbations() []perturbation {
+// c10Perturbations: pos selects which exit / imported exit is perturbed (0 first, 1 middle, 2 last).
+func c10Perturbations(pos int) []perturbation {
+	at := func(n int) int {
+		switch pos {
+		case 0:
+			return 0
+		case 1:
+			return n / 2
+		}
+		return n - 1
+	}
 	firstExit := func(c *agglayertypes.Certificate) *agglayertypes.BridgeExit {
 		if len(c.BridgeExits) == 0 {
 			return nil
 		}
-		return c.BridgeExits[len(c.BridgeExits)/2]
+		return c.BridgeExits[at(len(c.BridgeExits))]
 	}
 	firstImp := func(c *agglayertypes.Certificate) *agglayertypes.ImportedBridgeExit {
 		if len(c.ImportedBridgeExits) == 0 {
 			return nil
 		}
-		return c.ImportedBridgeExits[len(c.ImportedBridgeExits)-1]
+		return c.ImportedBridgeExits[at(len(c.ImportedBridgeExits))]
 	}
 	onExit := func(f func(e *agglayertypes.BridgeExit)) func(c *agglayertypes.Certificate) bool {
 		return func(c *agglayertypes.Certificate) bool {
@@ -352,7 +362,21 @@ func c10Perturb(c *agglayertypes.Certificate) (string, int) {
 	fep := cloneCert(c)
 	fep.AggchainData = &agglayertypes.AggchainDataProof{Proof: []byte{1}, Version: "v", Vkey: []byte{2}, AggchainParams: common.HexToHash("0x1234"), Signature: make([]byte, 65)}
 	fep0 := fep.FEPHashToSign()
-	for _, p := range c10Perturbations() {
+	// the commitments and the identity recomputed independently from the documented formulas
+	if want := refFEPCommitment(fep); fep0 != want {
+		return fmt.Sprintf("FEP signing commitment %s differs from the documented formula recomputed over the certificate's content (%s)", fep0, want), 1
+	}
+	if want := refPPCommitment(c); pp0 != want {
+		return fmt.Sprintf("PP signing commitment %s differs from the documented formula recomputed over the certificate's content (%s)", pp0, want), 1
+	}
+	if want := refCertIdentity(c); id0 != want {
+		return fmt.Sprintf("certificate identity hash %s differs from the documented formula recomputed over the certificate's content (%s)", id0, want), 1
+	}
+	var perts []perturbation
+	for pos := 0; pos < 3; pos++ {
+		perts = append(perts, c10Perturbations(pos)...)
+	}
+	for _, p := range perts {
 		x := cloneCert(c)
 		if !p.apply(x) {
 			continue
@@ -466,4 +490,58 @@ func TestC10(t *testing.T) {
 			rt.Fatalf("%v", err)
 		}
 	})
+}
+
+// refFEPCommitment: keccak(new_ler ‖ keccak(‖ (le32(global_index_i) ‖ exit_hash_i)) ‖ le64(height) ‖ aggchain_params)
+func refFEPCommitment(c *agglayertypes.Certificate) common.Hash {
+	var chunks []byte
+	for _, ib := range c.ImportedBridgeExits {
+		chunks = append(chunks, le32(refGlobalIndexOf(ib.GlobalIndex))...)
+		chunks = append(chunks, wireExitHash(ib.BridgeExit).Bytes()...)
+	}
+	params := crypto.Keccak256(nil)
+	if p, ok := c.AggchainData.(*agglayertypes.AggchainDataProof); ok {
+		params = p.AggchainParams.Bytes()
+	}
+	h := make([]byte, 8)
+	for i := 0; i < 8; i++ {
+		h[i] = byte(c.Height >> (8 * i))
+	}
+	return crypto.Keccak256Hash(c.NewLocalExitRoot.Bytes(), crypto.Keccak256(chunks), h, params)
+}
+
+func refProofHash(m *agglayertypes.MerkleProof) common.Hash {
+	b := append([]byte{}, m.Root.Bytes()...)
+	for _, p := range m.Proof {
+		b = append(b, p.Bytes()...)
+	}
+	return crypto.Keccak256Hash(b)
+}
+
+// refCertIdentity: keccak(network_id ‖ height ‖ prev_ler ‖ new_ler ‖ keccak(‖ exit_hash_i) ‖ keccak(‖ imported_exit_hash_i))
+func refCertIdentity(c *agglayertypes.Certificate) common.Hash {
+	var eh, ih []byte
+	for _, e := range c.BridgeExits {
+		eh = append(eh, wireExitHash(e).Bytes()...)
+	}
+	for _, ib := range c.ImportedBridgeExits {
+		var claim common.Hash
+		l1 := claimLeaf(ib.ClaimData)
+		leafHash := crypto.Keccak256Hash(l1.Inner.GlobalExitRoot.Bytes(), l1.Inner.BlockHash.Bytes(), big.NewInt(0).SetUint64(l1.Inner.Timestamp).FillBytes(make([]byte, 8)))
+		switch cd := ib.ClaimData.(type) {
+		case *agglayertypes.ClaimFromMainnnet:
+			claim = crypto.Keccak256Hash(refProofHash(cd.ProofLeafMER).Bytes(), refProofHash(cd.ProofGERToL1Root).Bytes(), leafHash.Bytes())
+		case *agglayertypes.ClaimFromRollup:
+			claim = crypto.Keccak256Hash(refProofHash(cd.ProofLeafLER).Bytes(), refProofHash(cd.ProofLERToRER).Bytes(), refProofHash(cd.ProofGERToL1Root).Bytes(), leafHash.Bytes())
+		}
+		gi := crypto.Keccak256Hash(le32(refGlobalIndexOf(ib.GlobalIndex)))
+		ih = append(ih, crypto.Keccak256Hash(wireExitHash(ib.BridgeExit).Bytes(), claim.Bytes(), gi.Bytes()).Bytes()...)
+	}
+	n := make([]byte, 4)
+	n[0], n[1], n[2], n[3] = byte(c.NetworkID>>24), byte(c.NetworkID>>16), byte(c.NetworkID>>8), byte(c.NetworkID)
+	h := make([]byte, 8)
+	for i := 0; i < 8; i++ {
+		h[7-i] = byte(c.Height >> (8 * i))
+	}
+	return crypto.Keccak256Hash(n, h, c.PrevLocalExitRoot.Bytes(), c.NewLocalExitRoot.Bytes(), crypto.Keccak256(eh), crypto.Keccak256(ih))
 }
